@@ -628,7 +628,11 @@ func gen(r *core.PRNG, tier string) any {
 // (pub / sign / gen) and a pre-emption of task 0 right after each of its first
 // 24 shared writes and at each of its first 24 statements.
 func directed(tier string) []any {
-	var out []any
+	// four groups, concatenated in this order so that a tier that runs only the first few
+	// thousand plans has the cheap and sharp ones from every family: (a) every kind against
+	// itself, (s) the own-objects family at its sync points, (c) first-use plans, (b) the grids
+	var groupA, groupS, groupC, groupB []any
+	out := &groupA
 	race := os.Getenv("VERIF_RACE_BINARY") == "1"
 	for _, n := range famNames {
 		f := fams[n]
@@ -649,16 +653,27 @@ func directed(tier string) []any {
 			// the second task makes the same kind of call with another argument (another
 			// message, other entropy): equal calls can hide a mix-up of their private data
 			second := []TaskOp{{K: k, A: 1}, {K: last}}
+			if (n == "own" || n == "cold") && !race {
+				// nothing is shared but package-level state: what an interleaving leaves there
+				// shows in a LATER call of the same kind, which the second task makes itself
+				second = []TaskOp{{K: k, A: 1}, {K: k, A: 1}}
+			}
 			if race {
 				// ThreadSanitizer drops a report when the earlier access has left the other
 				// goroutine's bounded history: nothing long runs between the two calls
 				second = second[:1]
 			}
-			out = append(out, &Plan{Fam: n, Seed: seed, Tasks: [][]TaskOp{{{K: k}}, second}, Switches: []SwitchSpec{sw}})
+			first := []TaskOp{{K: k}}
+			if (n == "own" || n == "cold") && !race {
+				// ... and so does the first task, once it has been resumed and has finished
+				first = []TaskOp{{K: k}, {K: k, A: 1}}
+			}
+			*out = append(*out, &Plan{Fam: n, Seed: seed, Tasks: [][]TaskOp{first, second}, Switches: []SwitchSpec{sw}})
 		}
 		// (a) every op kind against itself: two tasks make the same read-only call on the shared
 		// objects (the race oracle needs no particular pre-emption point for these)
 		for ki, k := range kinds {
+			out = &groupA
 			pair(k, uint64(100+ki), SwitchSpec{Task: 0, Mode: "pw", Num: 0, To: 1})
 			if race && tier != "thorough" {
 				continue // the race build is slower: one plan per kind so that every family is reached
@@ -673,6 +688,7 @@ func directed(tier string) []any {
 				// in place and restored): a denser grid for the calls that are cheap
 				grid = 24
 			}
+			out = &groupB
 			for g := 0; g < grid; g++ {
 				pair(k, uint64(100+ki), SwitchSpec{Task: 0, Mode: "frac", Num: uint64((2*g + 1) * 1000000 / (2 * grid)), To: 1})
 			}
@@ -686,6 +702,7 @@ func directed(tier string) []any {
 		if race && tier != "thorough" {
 			lim = 1
 		}
+		out = &groupS
 		if n == "own" {
 			// every kind of the own-objects family, pre-empted right after each of its first
 			// sync / atomic operations: the check-then-act windows of package-level memos and
@@ -696,6 +713,7 @@ func directed(tier string) []any {
 				}
 			}
 		}
+		out = &groupC
 		for k := 0; k < lim; k++ {
 			for _, mode := range []string{"pw", "early", "sync"} {
 				num := uint64(k)
@@ -706,7 +724,7 @@ func directed(tier string) []any {
 			}
 		}
 	}
-	return out
+	return append(append(append(groupA, groupS...), groupC...), groupB...)
 }
 
 func exec(planJSON []byte, run *core.Run) {
